@@ -1021,6 +1021,23 @@ def m_rmatch(I, recv, a, k, node, kind):
             if kd is not None and want not in kd:
                 _raise(I, node, 'TypeError', 'pattern/data type mismatch')
             I.may_raise(node, ['TypeError'], 'regex applied to a value that may not be %s' % want, (data,))
+    if is_concrete(recv) and isinstance(concrete(recv), Regex) and is_concrete(data) and isinstance(concrete(data), (bytes, str)) \
+            and getattr(I, 'fold_regex_on_constants', False):
+        # constant folding: a folded pattern applied to a constant chosen by the harness
+        import re as _re
+        rx_ = concrete(recv)
+        try:
+            mm = getattr(_re.compile(rx_.pattern, rx_.flags), mode)(concrete(data))
+        except TypeError:
+            _raise(I, node, 'TypeError', 'pattern/data type mismatch')
+        if mm is None:
+            return None
+        from sa.harness import AMatch
+        groups = {0: mm.group(0)}
+        for i_, v_ in enumerate(mm.groups(), 1):
+            groups[i_] = v_
+        groups.update(mm.groupdict())
+        return AMatch(rx_, groups, data)
     oracle = getattr(I, 'regex_oracle', None)
     if oracle is not None and is_concrete(recv) and isinstance(concrete(recv), Regex):
         r = oracle(I, concrete(recv), mode, data, node)
